@@ -122,3 +122,179 @@ Proof.
     vm_compute in E. discriminate E.
 Qed.
 Print Assumptions C20_unsorted_fold_order_dependent_refuted.
+
+(* ---------- groups = connected components; recording order ---------- *)
+From Verif Require Import Belief.Components Belief.Project.
+
+(* Specification (Components.v): [connected side] is the reflexive-symmetric-
+   transitive closure of "both on the side and share an actor key or an evidence
+   key"; [member c g] = all keys of c lie in g; [same_group gs a b] = some group
+   has both as members; [is_max_of side g] = snd g is an upper bound of its
+   members' confidences and is attained by one of them.
+   For every side, in the order recorded: the groups are duplicate-free and
+   pairwise key-disjoint; every candidate is a member of exactly one group (and no
+   other group holds any of its keys); a group holds only keys of its members; two
+   candidates are in one group iff they are connected; each group carries the
+   maximum of its members.  [cle] is any total transitive boolean order. *)
+Theorem C20_groups_are_components :
+  forall (C : Type) (cle : C -> C -> bool),
+    (forall a b, cle a b = true \/ cle b a = true) ->
+    (forall a b c, cle a b = true -> cle b c = true -> cle a c = true) ->
+    forall side : list (cand C),
+    let gs := groups_of (cmax_of cle) side in
+    NoDup gs /\ disjoint_groups gs
+    /\ (forall c, In c side -> exists g, In g gs /\ member c g /\
+          forall g', In g' gs -> (exists k, In k (cand_keys c) /\ In k (fst g')) -> g' = g)
+    /\ (forall g k, In g gs -> In k (fst g) -> exists c, In c side /\ In k (cand_keys c) /\ member c g)
+    /\ (forall a b, In a side -> In b side -> (same_group gs a b <-> connected side a b))
+    /\ (forall g, In g gs -> is_max_of cle side g).
+Proof. exact (@groups_are_components). Qed.
+Print Assumptions C20_groups_are_components.
+
+(* The number of groups and the multiset of group maxima are the same for every
+   recording order (Leibniz-antisymmetric total order, e.g. Z or Qc). *)
+Theorem C20_aggregate_perm :
+  forall (C : Type) (cle : C -> C -> bool),
+    (forall a b, cle a b = true \/ cle b a = true) ->
+    (forall a b c, cle a b = true -> cle b c = true -> cle a c = true) ->
+    (forall a b, cle a b = true -> cle b a = true -> a = b) ->
+    forall side side' : list (cand C), Permutation side side' ->
+      List.length (groups_of (cmax_of cle) side) = List.length (groups_of (cmax_of cle) side') /\
+      Permutation (map snd (groups_of (cmax_of cle) side)) (map snd (groups_of (cmax_of cle) side')).
+Proof. exact (@aggregate_perm). Qed.
+Print Assumptions C20_aggregate_perm.
+
+(* The same up to an equivalence [ceq] (antisymmetry up to ceq, e.g. Qeq), and
+   lifted through `aggregate` (side filter, empty side, score, count) for any
+   score that is a function of the multiset of maxima up to ceq. *)
+Theorem C20_aggregate_order_independent :
+  forall (C : Type) (cle : C -> C -> bool),
+    (forall a b, cle a b = true \/ cle b a = true) ->
+    (forall a b c, cle a b = true -> cle b c = true -> cle a c = true) ->
+    forall ceq : C -> C -> Prop,
+    (forall a b, cle a b = true -> cle b a = true -> ceq a b) ->
+    forall (score : list C -> C) (czero : C) (seq : C -> C -> Prop),
+    seq czero czero ->
+    (forall ms ms' l, Permutation ms' l -> Forall2 ceq ms l -> seq (score ms) (score ms')) ->
+    forall (cs cs' : list (cand C)) (opposing : bool), Permutation cs cs' ->
+      seq (fst (aggregate (cmax_of cle) score czero cs opposing))
+          (fst (aggregate (cmax_of cle) score czero cs' opposing)) /\
+      snd (aggregate (cmax_of cle) score czero cs opposing) =
+      snd (aggregate (cmax_of cle) score czero cs' opposing).
+Proof. exact (@aggregate_order_independent). Qed.
+Print Assumptions C20_aggregate_order_independent.
+
+(* Exact arithmetic: scores (up to ==), group counts and the classification of a
+   candidate multiset do not depend on the recording order. *)
+Theorem C20_projection_order_independent_exact :
+  forall (cs cs' : list (cand Q)) (nu : nat) (p : thresholds Q),
+    Permutation cs cs' ->
+    let a := aggregate qmax qscore 0%Q in
+    (fst (a cs false) == fst (a cs' false))%Q /\ snd (a cs false) = snd (a cs' false) /\
+    (fst (a cs true) == fst (a cs' true))%Q /\ snd (a cs true) = snd (a cs' true) /\
+    Model.classify qgeb qltb (fst (a cs false)) (fst (a cs true)) (snd (a cs false)) (snd (a cs true)) nu p =
+    Model.classify qgeb qltb (fst (a cs' false)) (fst (a cs' true)) (snd (a cs' false)) (snd (a cs' true)) nu p.
+Proof. exact projection_order_independent_Q. Qed.
+Print Assumptions C20_projection_order_independent_exact.
+
+(* non-vacuity: Z.leb meets the order premises, and a bridged side recorded in
+   two orders gives one group with the same maximum *)
+Example C20_order_premises_nonvacuous :
+  (forall a b, Z.leb a b = true \/ Z.leb b a = true) /\
+  (forall a b c, Z.leb a b = true -> Z.leb b c = true -> Z.leb a c = true) /\
+  (forall a b, Z.leb a b = true -> Z.leb b a = true -> a = b).
+Proof.
+  repeat split; intros.
+  - destruct (Z.leb_spec a b); auto. right. apply Z.leb_le. apply Z.lt_le_incl. assumption.
+  - apply Z.leb_le. apply Z.leb_le in H, H0. eapply Z.le_trans; eauto.
+  - apply Z.leb_le in H, H0. apply Z.le_antisymm; auto.
+Qed.
+
+Example C20_components_nonvacuous :
+  let a := mkCand 1%Z "alice" ["E1"] Support 5%Z false in
+  let b := mkCand 2%Z "bob" ["E2"] Support 7%Z false in
+  let c := mkCand 3%Z "carol" ["E1"; "E2"] Support 6%Z false in
+  let d := mkCand 4%Z "dave" [] Support 9%Z false in
+  map snd (groups_of (cmax_of Z.leb) [a; b; c; d]) = [7%Z; 9%Z] /\
+  map snd (groups_of (cmax_of Z.leb) [d; c; b; a]) = [9%Z; 7%Z] /\
+  List.length (groups_of (cmax_of Z.leb) [a; b; d]) = 3.
+Proof. vm_compute. repeat split; reflexivity. Qed.
+
+(* ---------- the projection of one proposition ---------- *)
+
+(* [keep] = the row passes `eligible`; [own_excl own] = the (id, reason) of every
+   ineligible row about the proposition, in order.  Ineligible rows (retracted,
+   superseded, expired, not visible, outside valid time, mode not admitted, no
+   mode) — own or rival — change nothing but the excluded ledger. *)
+Theorem C20_ineligible_contribute_nothing :
+  forall (C : Type) (cmax : C -> C -> C) (score : list C -> C) (czero : C) (geb ltb : C -> C -> bool)
+         (modes : list mode) (unstated : C) (at_ : string) (expand : bool)
+         (own rivals : list (row C)) (p : thresholds C),
+    let keep := keep modes unstated at_ in
+    let b := project cmax score czero geb ltb modes unstated at_ expand own rivals p in
+    let b' := project cmax score czero geb ltb modes unstated at_ expand (filter keep own) (filter keep rivals) p in
+    b_status b = b_status b' /\ b_support b = b_support b' /\ b_opposition b = b_opposition b' /\
+    b_sg b = b_sg b' /\ b_og b = b_og b' /\
+    l_supporting (b_ledger b) = l_supporting (b_ledger b') /\
+    l_opposing (b_ledger b) = l_opposing (b_ledger b') /\
+    l_uncertain (b_ledger b) = l_uncertain (b_ledger b') /\
+    l_excluded (b_ledger b') = [] /\
+    l_excluded (b_ledger b) = own_excl modes unstated at_ own /\
+    (forall i why, In (i, why) (l_excluded (b_ledger b)) <->
+                   exists r, In r own /\ r_id r = i /\ eligible modes unstated at_ r = inr why).
+Proof. exact (@ineligible_contribute_nothing). Qed.
+Print Assumptions C20_ineligible_contribute_nothing.
+
+(* Silence is insufficient, at the level of the whole projection. *)
+Theorem C20_silence_insufficient :
+  forall (C : Type) (cmax : C -> C -> C) (score : list C -> C) (czero : C) (geb ltb : C -> C -> bool)
+         (modes : list mode) (unstated : C) (at_ : string) (expand : bool)
+         (own rivals : list (row C)) (p : thresholds C),
+    (forall r, In r own -> exists why, eligible modes unstated at_ r = inr why) ->
+    (forall r c, In r rivals -> eligible modes unstated at_ r = inl c -> c_stance c <> Support) ->
+    let b := project cmax score czero geb ltb modes unstated at_ expand own rivals p in
+    b_status b = Insufficient /\ b_sg b = 0 /\ b_og b = 0 /\
+    l_supporting (b_ledger b) = [] /\ l_opposing (b_ledger b) = [] /\ l_uncertain (b_ledger b) = [].
+Proof. exact (@silence_insufficient). Qed.
+Print Assumptions C20_silence_insufficient.
+
+(* Rejection needs positive opposition (exact arithmetic; material <= accept is
+   what Policy::from_settings enforces and the baseline satisfies). *)
+Theorem C20_rejected_needs_opposition :
+  forall (modes : list mode) (unstated : Q) (at_ : string) (expand : bool)
+         (own rivals : list (row Q)) (p : thresholds Q),
+    (th_material p <= th_accept p)%Q ->
+    let b := project qmax qscore 0%Q qgeb qltb modes unstated at_ expand own rivals p in
+    b_status b = Rejected -> 0 < b_og b.
+Proof. exact rejected_needs_opposition_Q. Qed.
+Print Assumptions C20_rejected_needs_opposition.
+
+(* The whole projection depends only on the multiset of rows recorded about the
+   proposition and about its rivals, never on the recording order (exact
+   arithmetic): same status and group counts, scores equal as rationals, and the
+   four ledgers equal as multisets. *)
+Theorem C20_project_order_independent_exact :
+  forall (modes : list mode) (unstated : Q) (at_ : string) (expand : bool)
+         (own own' rivals rivals' : list (row Q)) (p : thresholds Q),
+    Permutation own own' -> Permutation rivals rivals' ->
+    let b := project qmax qscore 0%Q qgeb qltb modes unstated at_ expand own rivals p in
+    let b' := project qmax qscore 0%Q qgeb qltb modes unstated at_ expand own' rivals' p in
+    b_status b = b_status b' /\
+    (b_support b == b_support b')%Q /\ (b_opposition b == b_opposition b')%Q /\
+    b_sg b = b_sg b' /\ b_og b = b_og b' /\
+    Permutation (l_supporting (b_ledger b)) (l_supporting (b_ledger b')) /\
+    Permutation (l_opposing (b_ledger b)) (l_opposing (b_ledger b')) /\
+    Permutation (l_uncertain (b_ledger b)) (l_uncertain (b_ledger b')) /\
+    Permutation (l_excluded (b_ledger b)) (l_excluded (b_ledger b')).
+Proof. exact project_order_independent_Q. Qed.
+Print Assumptions C20_project_order_independent_exact.
+
+Example C20_project_nonvacuous :
+  let r i st m a s c := mkRow i st "active" "" "" m a [] s c false in
+  let own := [r 1%Z "active" "stated" "alice" "reject" (9#10); r 2%Z "retracted" "stated" "bob" "support" (9#10);
+              r 3%Z "active" "hypothetical" "carol" "support" 1]%Q in
+  let b := project qmax qscore 0%Q qgeb qltb [Observed; Stated] (1#2)%Q "2026" true own []
+             {| th_accept := (7#10)%Q; th_material := (3#10)%Q |} in
+  b_status b = Rejected /\ b_og b = 1 /\ b_sg b = 0 /\
+  l_excluded (b_ledger b) = [(2%Z, "retracted"%string); (3%Z, "hypothetical_not_requested"%string)].
+Proof. vm_compute. repeat split; reflexivity. Qed.
